@@ -65,6 +65,7 @@ PLAN = {
         level="other",
         functions=BATTERY_FNS + [E + "EV.charge", E + "EV.reset"] + SET_PILOT + [NET + "update_pilots", NET + "current_charging_rates",
                                                                                    SIM + "_store_actual_charging_rates", SIM + "run"],
+        lemmas=["C02.whole_run_ledger_sums_follow_from_the_per_period_clauses"],
         bounded=[dict(module="rt.drivers", fn="sim_monitor", label="whole-simulation ledger clauses"),
                  dict(module="rt.drivers", fn="stochastic_sim_monitor", label="ledger clauses with early departure (StochasticNetwork)")],
         text="PROVED (all inputs, all histories; no bound): (1) per call - every battery charge variant updates the stored charge by exactly rate x V/1000 x "
@@ -76,7 +77,10 @@ PLAN = {
              "iteration from the inductive invariant, i.e. every period of every run): column t of charging_rates records, for every station, what its "
              "occupant actually drew and 0 for a vacant station; the energy a connected session gained in the period is that recorded rate x station "
              "voltage x period length; sessions that are not connected gain nothing; every earlier column is left untouched; peak = max(previous peak, "
-             "aggregate current of the period). current_charging_rates / _store_actual_charging_rates: whole-matrix postconditions (Sum theory). BOUNDED "
+             "aggregate current of the period). current_charging_rates / _store_actual_charging_rates: whole-matrix postconditions (Sum theory). (4) the INDUCTION "
+             "over the periods as a lemma whose hypotheses are those step clauses (tied to them by name): delivered energy = initial value + sum over the "
+             "connected periods tau < t of recorded rate[tau] x V/1000 x period/60 (Sum unfolding + congruence on the untouched earlier columns), the peak "
+             "dominates every recorded aggregate current and is attained or 0. BOUNDED "
              "(run-time contracts on the real Simulator over seeded scenarios): the closed sums over a whole run - delivered = sum over connected periods of "
              "recorded rate x V x dt = battery gain, peak = max over periods, total energy = integral of aggregate power, analysis totals - which follow from "
              "the per-period clauses by induction over the periods (the telescoping itself is not restated as an obligation), and the battery side of the "
@@ -107,9 +111,10 @@ PLAN = {
              "applied in queue order before the scheduler precondition 'no event of this period is pending'. _process_event: a plug-in attaches the EV "
              "to its station, records it and schedules exactly one fresh Unplug (precedence 0) at ev.departure, every other station keeps its "
              "occupant; an unplug vacates the station iff the session matches and never another one; network plugin/unplug/get_ev with KeyError / "
-             "StationOccupiedError frames; on normal return the queue is empty, nothing is owed and the last event was one period before the final "
-             "counter. BOUNDED: the end-to-end lifecycle clauses on whole simulations (each session connected in exactly [arrival, departure), every "
-             "station vacated at the end) - a corollary of the proved invariant not restated as one obligation.",
+             "StationOccupiedError frames; on normal return the queue is empty, nothing is owed, the last event was one period before the final "
+             "counter and EVERY STATION IS VACATED (postcondition of run: an occupant would have its Unplug pending, and nothing is pending). BOUNDED: the "
+             "remaining end-to-end lifecycle clause on whole simulations (each session connected in exactly [arrival, departure)) - a corollary of the "
+             "proved invariant and step contract not restated as one obligation.",
         note="update_pilots / _update_schedules / _store_actual_charging_rates / _increase_width enter the loop proof through their contracts (C04 / C02); "
              "the scheduler is an assumed contract (user code); events are not mutated while queued; verbose=False (printing is not modelled); the horizon "
              "bound is a ghost parameter of run (a finite queue has a largest timestamp / departure); definitional axioms (choice function, recursive "
@@ -125,6 +130,7 @@ PLAN = {
     "C04": dict(
         level="other",
         functions=[SIM + "_update_schedules", "acnportal.acnsim.simulator._increase_width", NET + "update_pilots", SIM + "run"] + SET_PILOT,
+        lemmas=["C04.recorded_and_applied_pilots_are_the_overlay_of_all_submitted_schedules"],
         bounded=[dict(module="rt.drivers", fn="sim_monitor", label="schedule overlay clauses on whole simulations")],
         text="PROVED (all schedules: any subset of stations, any common length, empty, longer than the horizon, at any period incl. the last; all matrix "
              "sizes; no bound): Simulator._update_schedules against a whole-matrix postcondition keyed by station id - for EVERY cell, columns "
@@ -140,12 +146,17 @@ PLAN = {
              "matrix (applied = recorded); if the scheduler was invoked the matrix is the previous one overlaid with the submitted schedule - cell (station, "
              "j) = the schedule's value for j in t..t+len-1 (0 if the station is omitted), the previous cell otherwise, 0 in new columns - and an empty "
              "schedule changes no recorded pilot; if it was not invoked no recorded pilot changes and new columns are 0 (periods no schedule covers have "
-             "pilot 0); the matrix always covers the current period and never shrinks. BOUNDED: the closed form over a whole run (recorded = applied = "
-             "overlay of ALL submitted schedules, which follows from the per-period clauses by induction) on seeded simulations.",
+             "pilot 0); the matrix always covers the current period, covers a submitted schedule entirely, and never shrinks. THE INDUCTION over the periods "
+             "(lemma; its hypotheses are those step clauses, tied to them by name): with OV_k(station, j) = the value of the latest of the first k submitted "
+             "schedules that covers period j (0 for an omitted station, 0 if none covers j), every recorded cell equals OV_k and OV_k is 0 beyond the "
+             "recorded width - from a fresh zero matrix (base) and preserved by every period (step); a later schedule never rewrites a past period; the "
+             "pilot a station holds in period t is OV(station, t) - i.e. recorded = applied = overlay of ALL submitted schedules, for every run. BOUNDED: the "
+             "same closed form re-checked on the real simulator in seeded simulations (the instantiation of the induction at the real initial state - "
+             "Simulator.__init__ builds the zero matrix - is only monitored).",
         note="numpy operations (np.array of equal-length rows, zeros, slice / column assignment, tile, argmax, unravel_index, shape) are assumed "
              "contracts (A-LIB); network.is_feasible / constraint_current enter only through structural facts (shape; no constraints or no columns => "
              "feasible); set(len(x) ...) is characterised by 'at most one element iff all lengths are equal'",
-        explanation="proved: whole-matrix postcondition of _update_schedules, _increase_width, update_pilots, callee preconditions in run, per-period overlay / applied = recorded clauses of the run loop; bounded: closed-form overlay over whole runs (rt.simcheck C04.*)",
+        explanation="proved: whole-matrix postcondition of _update_schedules, _increase_width, update_pilots, callee preconditions in run, per-period overlay / applied = recorded clauses of the run loop, induction lemma to the closed-form overlay; bounded: the closed form on real whole runs (rt.simcheck C04.*)",
         technique="contract-based deductive verification with a matrix theory for the numpy operations used (pyvc/z3) + run-time contract monitor (bounded) for the whole-run overlay",
         trusted=["numpy axioms used: array(list of equal-length rows), zeros, [:, lo:hi] = M, [:, j] = v, [i, j], shape, tile(v,(n,1)).T, abs, -, argmax range, unravel_index"],
     ),
